@@ -19,8 +19,7 @@
     of that value (of its image `Hs.C02.jImage`), so the read theorem is not vacuous and C02 is a corollary.
   * REFERENCE READER vs relation vs decoder, `C05_reader_agrees`: on every Hayson document (`Denotes`) the
     reference reader — with the fuel `readDoc` gives it — and the library's decoder give the same value
-    (the reader represents an empty grid/column meta as an absent one: `readerImage`; hypothesis
-    `MetaUntagged`: no `_kind` member inside a grid meta / column meta, which the reader would take for a tag).
+    (the reader represents an empty grid/column meta as an absent one: `readerImage`).
     Hence `C05_writer_conforms`: the reference reader reads the encoder's document of EVERY well-formed value,
     of any kind and nesting, as the value (the `writer_conforms_*` representatives below are instances).
   * the reference reader is order independent by construction (`lookup_perm`); it is more lenient than
@@ -283,20 +282,18 @@ example : fromJson (.obj
 
 `readDoc` (Spec/HaysonRead.lean) is the executable form of the specification that exchanges documents with
 the real code on every run.  On every Hayson document it computes the value the relation says, and the
-decoder computes the same value.  Two conventions of the reader are made explicit: it represents an empty
-grid meta / column meta as an absent one (`readerImage`), and it does not set a `"_kind":"dict"` member of
-a grid meta / column meta aside but takes it for a tag (`MetaUntagged` excludes such documents; the
-decoder and `Denotes` treat `{"_kind":"dict",…}` as the same dict everywhere). -/
+decoder computes the same value.  One convention of the reader is made explicit: it represents an empty
+grid meta / column meta as an absent one (`readerImage`). -/
 
 /-- Reader and decoder agree on every Hayson document, at full strength. -/
 def C05_reader_agrees_full : Prop :=
-  ∀ (w : Val) (doc : Json), Denotes w doc → MetaUntagged doc →
+  ∀ (w : Val) (doc : Json), Denotes w doc →
     readDoc doc = some (readerImage w) ∧ fromJson doc = .ok w
 
 /-- **the reference reader and the library's decoder give the same value on every Hayson document**
 (refinement of the reference reader by the decoder, on the documents of the relation) -/
 theorem C05_reader_agrees : C05_reader_agrees_full :=
-  fun _ _ h hu => ⟨reader_denotes h hu, read_denotes h⟩
+  fun _ _ h => ⟨reader_denotes h, read_denotes h⟩
 
 /-- Write direction against the reference reader, every value. -/
 def C05_writer_conforms_full (WF : Val → Prop) : Prop :=
@@ -306,46 +303,42 @@ def C05_writer_conforms_full (WF : Val → Prop) : Prop :=
 reference reader reads the encoder's document as the value -/
 theorem C05_writer_conforms : C05_writer_conforms_full WFj := fun v h => reader_reads_writer v h
 
-/-- the hypothesis `MetaUntagged` is needed: on `{"_kind":"grid","meta":{"_kind":"dict"},"cols":[],"rows":[]}`
-the decoder (and `Denotes`) see an empty meta, the reference reader a meta with one tag named `_kind` -/
-theorem reader_meta_kind_tag :
+/-- a grid meta, a column meta and a row are dict objects, `"_kind":"dict"` optional in each: on
+`{"_kind":"grid","meta":{"_kind":"dict"},"cols":[{"name":"a","meta":{"_kind":"dict","x":true}}],"rows":[{"_kind":"dict"}]}`
+reader and decoder see an empty grid meta (the reader: an absent one), the column meta `{x}` and an empty row -/
+theorem reader_meta_kind_dict :
     okIs (readDoc (.obj (.cons (s "_kind") (.str (s "grid"))
       (.cons (s "meta") (.obj (.cons (s "_kind") (.str (s "dict")) .nil))
-      (.cons (s "cols") (.arr .nil) (.cons (s "rows") (.arr .nil) .nil))))))
-      (fun v => match v with | .grid (.some (.cons k _ .nil)) _ _ _ => k == s "_kind" | _ => false) = true ∧
+      (.cons (s "cols") (.arr (.cons (.obj (.cons (s "name") (.str (s "a")) (.cons (s "meta")
+        (.obj (.cons (s "_kind") (.str (s "dict")) (.cons (s "x") (.bool true) .nil))) .nil))) .nil))
+      (.cons (s "rows") (.arr (.cons (.obj (.cons (s "_kind") (.str (s "dict")) .nil)) .nil)) .nil))))))
+      (fun v => match v with
+        | .grid .none (.cons _ (.some (.cons k _ .nil)) .nil) (.cons .nil .nil) _ => k == s "x" | _ => false) = true ∧
     C02.okIs (fromJson (.obj (.cons (s "_kind") (.str (s "grid"))
       (.cons (s "meta") (.obj (.cons (s "_kind") (.str (s "dict")) .nil))
-      (.cons (s "cols") (.arr .nil) (.cons (s "rows") (.arr .nil) .nil))))))
-      (fun v => match v with | .grid (.some .nil) _ _ _ => true | _ => false) = true := by
+      (.cons (s "cols") (.arr (.cons (.obj (.cons (s "name") (.str (s "a")) (.cons (s "meta")
+        (.obj (.cons (s "_kind") (.str (s "dict")) (.cons (s "x") (.bool true) .nil))) .nil))) .nil))
+      (.cons (s "rows") (.arr (.cons (.obj (.cons (s "_kind") (.str (s "dict")) .nil)) .nil)) .nil))))))
+      (fun v => match v with
+        | .grid (.some .nil) (.cons _ (.some (.cons k _ .nil)) .nil) (.cons .nil .nil) _ => k == s "x" | _ => false) = true := by
   decide +kernel
-
-/-- non-vacuity of `C05_reader_agrees`: the `_kind`-last, meta-less grid of the example above -/
-example : MetaUntagged (.obj
-    (.cons (s "rows") (.arr (.cons (.obj (.cons (s "_kind") (.str (s "dict")) (.cons (s "b") (.bool true)
-        (.cons (s "a") (.obj (.cons (s "_kind") (.str (s "marker")) .nil)) .nil)))) .nil))
-    (.cons (s "cols") (.arr (.cons (.obj (.cons (s "meta") (.obj .nil) (.cons (s "name") (.str (s "a")) .nil)))
-        (.cons (.obj (.cons (s "name") (.str (s "b")) .nil)) .nil)))
-    (.cons (s "_kind") (.str (s "grid")) .nil)))) := by
-  simp [MetaUntagged, MetaUntaggedM, MetaUntaggeds, Members.toList, Jsons.toList, s, Untagged, ColUntagged]
-  intro a b h _ mm e
-  rcases h with ⟨_, rfl⟩ | ⟨_, rfl⟩
-  · cases e; simp [Members.toList]
-  · cases e
 
 /-! ### why the read direction is not stated as "whatever the reference reader accepts"
 
 The reference reader looks the members it needs up by name and ignores every other member; the
-library's visitor decodes every member it meets before it knows the kind.  On
-`{"x":{"_kind":null},"_kind":"marker"}` the reader answers Marker and the visitor fails — but an object
-with a member `x` beside `"_kind":"marker"` is not a Hayson document, so this is a leniency of the reader,
-not a defect of the decoder.  `Denotes` admits exactly the members the specification lists.
-(Measured on the real code, 2026-09-29: `{"_kind":"marker","x":1}` is an ERROR for `from_str` ("trailing
-comma": serde_json refuses a map its visitor returned from early) and for `from_value` ("invalid length 2");
-`{"x":1,"_kind":"marker"}` is Marker for `from_str` and an error for `from_value` (which visits the members
-in key order).  The tree model's early return answers Marker in the first case: it is exact only on objects
-whose `marker`/`remove`/`na` tag is the last member visited — in particular on every Hayson document,
-where it is the only member.) -/
+library's visitor decodes every member it meets before it knows the kind, and returns from the loop as
+soon as it meets `"_kind":"marker"` (`remove`, `na`) — which serde_json accepts only if no member is left.
+On `{"_kind":"marker","x":1}` the reader answers Marker and the decoder fails (model and real code:
+`from_str` "trailing comma at line 1 column 18", `from_value` "invalid length 2, expected fewer elements in
+map"); on `{"x":{"_kind":null},"_kind":"marker"}` likewise (the member `x` does not decode).  An object with
+a member beside `"_kind":"marker"` is not a Hayson document, so this is a leniency of the reader, not a
+defect of the decoder.  `Denotes` admits exactly the members the specification lists. -/
+def one : Json := .int 1 { bits := 0x3FF0000000000000, txt := ['1'] }
+
 theorem readDoc_lenient :
+    okIs (readDoc (.obj (.cons (s "_kind") (.str (s "marker")) (.cons (s "x") one .nil))))
+      (fun v => match v with | .marker => true | _ => false) = true ∧
+    (fromJson (.obj (.cons (s "_kind") (.str (s "marker")) (.cons (s "x") one .nil)))).tag = "err" ∧
     okIs (readDoc (.obj (.cons (s "x") (.obj (.cons (s "_kind") .null .nil))
       (.cons (s "_kind") (.str (s "marker")) .nil)))) (fun v => match v with | .marker => true | _ => false) = true ∧
     (fromJson (.obj (.cons (s "x") (.obj (.cons (s "_kind") .null .nil))
